@@ -1,5 +1,6 @@
 SPECIFICATION Spec
 CONSTANTS
+  Ablate = {}
   Ids <- MCIds
   InitVoters <- MVoters
   InitLearners <- MLearners
@@ -27,6 +28,14 @@ CONSTANTS
   MaxLeaderTicks = 0
   TickNodes = {1, 2}
   MaxDrops = 2
+  MaxTransfers = 0
+  TransferTargets = {}
+  MaxConf = 0
+  ConfMenuIds = {}
+  MaxReads = 0
+  LazyApply = FALSE
+  AllowCompact = FALSE
+  ProposeAnywhere = FALSE
 CONSTRAINT Bound
 INVARIANT Judge
 INVARIANT Replay
